@@ -25,7 +25,8 @@ Readings (the weaker one where the statement leaves a choice):
 Signatures: a violating case that contains free text with the marker word is re-run with that text
 replaced by plain words; if the violation disappears the signature is
 'marker-word-in-trailing-comment' (root cause: the 'exogenous' substring test runs on the raw line),
-otherwise the signature spells the line forms.
+otherwise: 'default-t-added-although-user-defines-time-axis' when the block defines t / t_minus_1 and
+the observed simultaneous list nevertheless holds t = k; else the signature spells the line forms.
 """
 import json
 import random
@@ -37,6 +38,7 @@ CLAUSE = {'E': 'C14_ExactlyOneClass', 'M': 'C14_MeaningUnchanged', 'T': 'C14_Tim
           'R': 'C14_MalformedReported', 'I': 'C14_CommentsInert'}
 DRIFT = {'o': 'list_or_message_order'}
 SIG_MARKER = 'marker-word-in-trailing-comment'
+SIG_TIME = 'default-t-added-although-user-defines-time-axis'
 
 ONE_EQ = ('eq', 'lag1', 'lag2', 'lag3', 'ic', 'maxtime', 'errtol', 'usert')
 
@@ -175,6 +177,11 @@ def has_marker_text(forms):
     return any(f['cc'] == 'exo' for f in forms)
 
 
+def user_time(forms):
+    """Parser!HasUserT"""
+    return any(f['kind'] in ONE_EQ and f['kind'] != 'ic' and f['v'] in ('t', 't_minus_1') for f in forms)
+
+
 def cured(forms):
     return [dict(f, cc='plain') if f['cc'] == 'exo' else f for f in forms]
 
@@ -236,11 +243,13 @@ def judge_blocks(rep, items):
             cure_verdict[i] = cv[n]
     for i, letters in bad:
         forms, variant = items[i]
+        ev = traces[i][1][0]
         if i in cure_verdict and not cure_verdict[i].startswith('property'):
             sig = SIG_MARKER
+        elif user_time(forms) and {'var': 't', 'rhs': 'k'} in ev['obs']['endo']:
+            sig = SIG_TIME
         else:
             sig = generic_signature(forms)
-        ev = traces[i][1][0]
         small = {'behaviour': forms, 'variant': variant}
         for c in letters:
             # the full record (text, observation) only for the first cases of each (clause, signature)
@@ -269,6 +278,9 @@ TEMPLATES = {
             L('eq', 'H', 'LAG_H+YD-C'), L('lag1', 'LAG_H', 'H'), L('usert', 't', 'k+1'),
             L('errtol', 'Err_Tolerance', '1e-6'), L('marker'), L('eq', 'G', '[20.]*10'),
             L('maxtime', 'MaxTime', '5')],
+    # the user's time axis defined on a lag line
+    'lagtime': [L('eq', 's', 't+1'), L('lag1', 't', 's'), L('ic', 't', '2000.'), L('eq', 'y', '0.5*y+s'),
+                L('marker'), L('eq', 'g', '[2.]*10'), L('maxtime', 'MaxTime', '3')],
 }
 HOSTILE = ('plain', 'eq', 'hash', 'digits', 'exo')
 SPACINGS = ('tight', 'one', 'wide')
@@ -504,9 +516,10 @@ def judge_pairs(rep, cases):
 
 def run(rep):
     # (cfg, variants used to spell each behaviour)
-    plan = [('MC_Parser_quick.cfg', (0,)), ('MC_Parser_quick2.cfg', (0, 1))]
+    plan = [('MC_Parser_quick.cfg', (0,)), ('MC_Parser_quick2.cfg', (0, 1)), ('MC_Parser_quick3.cfg', (0, 1))]
     if rep.tier != 'quick':
-        plan += [('MC_Parser_thorough2.cfg', (1,)), ('MC_Parser_thorough.cfg', (0,))]
+        plan += [('MC_Parser_thorough3.cfg', (0, 1)), ('MC_Parser_thorough2.cfg', (1,)),
+                 ('MC_Parser_thorough.cfg', (0,))]
     rep.rule = ('behaviours = all maximal behaviours of the bounded Parser instance emitted by TLC = equation blocks '
                 'as sequences of line forms (kind x variable/right-hand side x trailing-comment class x spacing), '
                 'each spelled out in the listed text variants and parsed by the real EquationParser together with '
